@@ -43,3 +43,10 @@ Definition str_split_at (s : str) (i : N) : outcome (str * str) :=
 (* `Pointer::tokens()`: `self.0.split('/')` with the first (empty) piece skipped; items are modelled by their
    encoded text.  A primitive of the translation (the Tokens / Split iterator structs are not translated). *)
 Definition str_tokens (p : str) : list str := tl (split_on 47 p).
+
+(* `String::insert(idx, ch)` / `insert_str(idx, s)` and `String::remove(idx)`: panic when idx is out of range
+   (and when it is not a char boundary: not modelled) *)
+Definition str_insert (s : str) (i : N) (x : str) : outcome str :=
+  if i <=? len s then Ret (firstn (N.to_nat i) s ++ x ++ skipn (N.to_nat i) s) else Panic.
+Definition str_remove (s : str) (i : N) : outcome str :=
+  if i <? len s then Ret (firstn (N.to_nat i) s ++ skipn (S (N.to_nat i)) s) else Panic.
